@@ -528,4 +528,111 @@ theorem length_of_keys (D kvs : List (String × J)) (keys : List String)
   · exact fun h => h.2
   · exact fun h => ⟨hsub a h, h⟩
 
+theorem setOK_spec {env : ResultTypes.Env} {sel : List Selection} (h : setOK env sel = true) :
+    (sel.map keyOf).Nodup ∧ ((sel.map keyOf).map (pyFieldName env)).Nodup ∧
+    ∀ k ∈ sel.map keyOf, pyFieldName env k = k ∨ pyFieldName env k ∉ sel.map keyOf := by
+  simp only [setOK, Bool.and_eq_true, nodupB_iff, List.all_eq_true, Bool.or_eq_true, beq_iff_eq,
+    Bool.not_eq_true', List.contains_eq_mem, decide_eq_false_iff_not] at h
+  exact ⟨h.1.1, h.1.2, h.2⟩
+
+theorem collOf_key {x : Selection} (h : isField x = true) : (collOf x).key = keyOf x := by
+  cases x <;> simp [isField] at h <;> rfl
+
+theorem vneed_mem (env : ResultTypes.Env) (tn : String) (sel : List Selection) (s : Selection) (h : s ∈ sel) :
+    vneed1 env tn s ≤ vneed env tn sel := by
+  induction sel with
+  | nil => cases h
+  | cons x rest ih =>
+    simp only [vneed]
+    rcases List.mem_cons.mp h with rfl | h
+    · omega
+    · have := ih h; omega
+
+theorem class_rt (env : ResultTypes.Env) (penv : Pyd.Env) (frags : List Fragment) (ef : Nat)
+    (ha : ResultLeaf.EnvAgrees env penv) (hbm : penv.class? "BaseModel" = none)
+    (IH : ValSpec env penv frags ef) : ValSpec env penv frags (ef + 1) := by
+  intro marks cn tn sel j hset hloc hcls hresp hndj vfuel hvf
+  obtain ⟨kvs, rfl⟩ := respOK_isObj _ _ _ _ _ _ hresp
+  obtain ⟨g, rfl⟩ : ∃ g, vfuel = g + 1 := ⟨vfuel - 1, by omega⟩
+  have hlocs := (plainLocal_iff env marks cn tn sel).mp hloc
+  have hfields : ∀ x ∈ sel, isField x = true := fun x hx => plainLocal1_isField (hlocs x hx)
+  obtain ⟨hkeys, hpys, hpk⟩ := setOK_spec hset
+  rw [respOK_obj, collect_fields env.schema frags ef tn sel [] hfields hkeys (by simp)] at hresp
+  simp only [List.nil_append, Bool.and_eq_true] at hresp
+  obtain ⟨hr1, hr2⟩ := hresp
+  have hsubkeys : ∀ k ∈ kvs.map (·.1), k ∈ sel.map keyOf := by
+    intro k hk
+    obtain ⟨p, hp, rfl⟩ := List.mem_map.mp hk
+    have h1 := List.all_eq_true.mp hr1 p hp
+    obtain ⟨c, hc, he⟩ := List.any_eq_true.mp h1
+    obtain ⟨y, hy, rfl⟩ := List.mem_map.mp hc
+    rw [collOf_key (hfields y hy)] at he
+    have : keyOf y = p.1 := by simpa using he
+    rw [← this]
+    exact List.mem_map.mpr ⟨y, hy, rfl⟩
+  obtain ⟨hkn, hkv, hklk⟩ := nodupKvs_spec kvs (by simpa [nodupKeys] using hndj)
+  have hc0 : penv.class? cn = some { name := cn, bases := ["BaseModel"], fields := plainDecls env cn tn sel } :=
+    hcls { name := cn, bases := ["BaseModel"], fields := plainDecls env cn tn sel } (by simp [plainClasses])
+  have hall : allFields penv penv.clsFuel cn = plainDecls env cn tn sel :=
+    allFields_plain penv ⟨cn, ["BaseModel"], plainDecls env cn tn sel⟩ hc0 rfl hbm (by
+      show ((plainDecls env cn tn sel).map (·.py)).Nodup
+      rw [plainDecls_map env cn tn (·.py) (pyFieldName env) (fun _ _ _ _ => rfl) sel hfields]
+      exact hpys) penv.classes.length
+  obtain ⟨fs, hfs, heq, hkeysD⟩ := mapE_fields (fieldWith penv penv.clsFuel (validate penv g) kvs) kvs
+    (fun d => d.alias.getD d.py) (plainDecls env cn tn sel) (by
+    intro d hd
+    obtain ⟨alias, name, dirs, sid, sub, hx, rfl⟩ := mem_plainDecls hd
+    have hkeymem : alias.getD name ∈ sel.map keyOf := List.mem_map.mpr ⟨_, hx, rfl⟩
+    have hlx := hlocs _ hx
+    have hfw := fieldWith_plain penv penv.clsFuel (validate penv g) kvs (fieldDecl env cn tn alias name dirs sub)
+      (alias.getD name) rfl rfl (by
+        rcases hpk _ hkeymem with h | h
+        · exact Or.inl h
+        · exact Or.inr ((lookup_none_iff _ _).mpr (fun hm => h (hsubkeys _ hm))))
+    have hg := List.all_eq_true.mp hr2 (collOf (.field alias name dirs sid sub)) (List.mem_map.mpr ⟨_, hx, rfl⟩)
+    simp only [collOf] at hg
+    simp only [fieldDecl_key]
+    cases hlk : J.lookup (alias.getD name) kvs with
+    | none =>
+      left
+      refine ⟨rfl, ?_⟩
+      rw [hlk] at hg
+      have hd : (fieldDecl env cn tn alias name dirs sub).defaultNone = true := by
+        simpa [fieldDecl, Exec.isConditional, hasConditionalDirective] using hg
+      rw [hfw]
+      simp only [hlk, hd, if_true]
+    | some v =>
+      right
+      rw [hlk] at hg
+      have hlx' := hlx
+      simp only [plainLocal1, Bool.and_eq_true] at hlx'
+      obtain ⟨⟨⟨hname, _⟩, hfd⟩, _⟩ := hlx'
+      have hname' : (name == Tables.typenameFieldName) = false := by simpa [typenameField] using hname
+      obtain ⟨fd, hfd'⟩ := Option.isSome_iff_exists.mp hfd
+      have hT : fieldT env tn name = fd.type := by simp [fieldT, hfd']
+      simp only [hname', Bool.false_eq_true, if_false, hfd', ← hT] at hg
+      obtain ⟨pv, hpv, hev⟩ := field_rt env penv frags ef ha IH marks cn tn alias name dirs sid sub v hlx
+        (fun c hc => hcls c (List.mem_cons_of_mem _ (mem_plainExtra hx c hc)))
+        (hkv _ (lookup_mem hlk)) hg g (by have := vneed_mem env tn sel _ hx; omega)
+      refine ⟨v, pv, _, _, rfl, ?_, fieldDecl_key env cn tn alias name dirs sub, hev⟩
+      rw [hfw]
+      simp only [hlk, hpv])
+  have hkD : (dumpFields (fs.filterMap id)).map (·.1) = (sel.map keyOf).filter (fun k => J.hasKey k kvs) := by
+    rw [hkeysD, plainDecls_map env cn tn (fun d => d.alias.getD d.py) id (fun a n d s => fieldDecl_key env cn tn a n d s) sel hfields]
+    simp
+  refine ⟨.model cn (fs.filterMap id), ?_, ?_⟩
+  · rw [validate_cls_succ]
+    unfold modelWith
+    simp only [hc0, hall, hfs]
+  · simp only [dump, J.eqv, Bool.and_eq_true, beq_iff_eq]
+    exact ⟨length_of_keys _ kvs (sel.map keyOf) hkD hkeys hkn hsubkeys, heq⟩
+
+/-- **part (2), all executor fuels** -/
+theorem val_spec (env : ResultTypes.Env) (penv : Pyd.Env) (frags : List Fragment)
+    (ha : ResultLeaf.EnvAgrees env penv) (hbm : penv.class? "BaseModel" = none) : ∀ ef, ValSpec env penv frags ef
+  | 0 => by
+    intro marks cn tn sel j _ _ _ hresp
+    simp [Exec.respOK] at hresp
+  | ef + 1 => class_rt env penv frags ef ha hbm (val_spec env penv frags ha hbm ef)
+
 end Ariadne.C01Plain
